@@ -1,7 +1,7 @@
 (* C13: define-then-delete is the identity; feature dependencies stay consistent
    (statements only; proofs in DepsProofs.v / DepsTables.v). *)
 From Coq Require Import ZArith List Bool Arith Lia.
-From CV Require Import C13.DepsModel C13.InvModel C13.DepsProofs C13.DepsTables C13.ModuleModel C13.ModuleProofs C13.DepsInv C13.ModuleInv C13.ModuleRooted C13.EnableExcl C13.EnableWitness Gen.GenDeps.
+From CV Require Import C13.DepsModel C13.InvModel C13.DepsProofs C13.DepsTables C13.ModuleModel C13.ModuleProofs C13.DepsInv C13.ModuleInv C13.ModuleRooted C13.EnableExcl C13.EnableWitness C13.UserFeatures Gen.GenDeps.
 Import ListNotations.
 
 (* ---- table theorems, re-checked on every run against the tables dumped from the binary ---- *)
@@ -473,4 +473,63 @@ Proof.
   2:{ vm_compute in E. inversion E; subst. vm_compute in E'. discriminate. }
   exists m, m'. repeat (split; [assumption || reflexivity|]).
   vm_compute in E. inversion E; subst. vm_compute in E'. inversion E'; subst. split; reflexivity.
+Qed.
+
+(* ==== only DYNAMIC features are switched by reference counting (UserFeatures.v) ====
+   The tables regenerated from the binary carry the kind of every feature (dynamic / user-controlled / static).
+   colvardeps::decr_ref_count auto-disables `rc == 0 && f->is_dynamic()` only, and a non-top-level enable of a feature
+   that is not dynamic is refused ("cannot be enabled automatically"). *)
+
+(* every release primitive (disable with all cascades, decr_ref_count, free_children_deps): an enabled feature that is
+   not dynamic stays enabled unless it is the very target of the disable call *)
+Theorem C13_release_keeps_non_dynamic_features : forall (T : tables) n p s r s' o' g,
+  release_op p = true -> run_op T n p s = Some (r, s') ->
+  is_dynamic (feat T (cls_of s o') g) = false -> (forall o f, p = OpDisable o f -> (o, f) <> (o', g)) ->
+  is_enabled s o' g = true -> is_enabled s' o' g = true.
+Proof. exact release_keeps_non_dynamic. Qed.
+Print Assumptions C13_release_keeps_non_dynamic_features.
+
+Theorem C13_delete_bias_keeps_non_dynamic_features : forall (T : tables) n b s s' o' g,
+  delete_bias T n b s = Some s' -> is_dynamic (feat T (cls_of s o') g) = false ->
+  is_enabled s o' g = true -> is_enabled s' o' g = true.
+Proof. exact delete_bias_keeps_non_dynamic. Qed.
+Print Assumptions C13_delete_bias_keeps_non_dynamic_features.
+
+(* enable (any flags, successful or failed): a feature that is not dynamic and becomes enabled is the target of a top-level call *)
+Theorem C13_enable_enables_only_dynamic_features : forall (T : tables) n o f dry top err s r s' o' g,
+  enable T n o f dry top err s = Some (r, s') ->
+  is_enabled s o' g = false -> is_enabled s' o' g = true -> is_dynamic (feat T (cls_of s o') g) = false ->
+  top = true /\ (o', g) = (o, f).
+Proof. exact enable_enables_only_dynamic. Qed.
+Print Assumptions C13_enable_enables_only_dynamic_features.
+
+(* FOR EVERY SEQUENCE of operations {define variable, define bias, any primitive, delete bias, delete variable, reset}:
+   a feature of an existing object that is not dynamic has the same state afterwards, unless the sequence contains an
+   explicit request on it (a top-level enable or a disable of exactly that feature of that object) *)
+Theorem C13_non_dynamic_features_change_only_on_request : forall (T : tables) o g n (ps : list mop) m m',
+  o < length (m_objs m) -> is_dynamic (feat T (cls_of (m_objs m) o) g) = false ->
+  forallb (fun p => negb (mrequests o g p)) ps = true -> m_run T n ps m = Some m' ->
+  is_enabled (m_objs m') o g = is_enabled (m_objs m) o g.
+Proof. exact non_dynamic_changes_only_on_request. Qed.
+Print Assumptions C13_non_dynamic_features_change_only_on_request.
+
+(* non-vacuity on the real tables, the situation of the witness W_U: a scalar variable with extended_Lagrangian (13, user)
+   switched on by a top-level request; a bias obtains the total force (5 -> child 7 -> alternative 13: one reference);
+   the bias is deleted: total_force (dynamic) goes, extended_Lagrangian stays *)
+Definition exu_ops1 : list mop :=
+  [MNewColvar (ex_avail 38) [(ex_avail 18, [(ex_avail 11, [1])])]; MNewBias (ex_avail 17) [0];
+   MPrim (OpEnable 0 34 false true false); MPrim (OpEnable 0 0 false true false); MPrim (OpEnable 0 13 false true false)].
+Definition exu_ops2 : list mop :=
+  [MPrim (OpEnable 3 0 false true false); MPrim (OpEnable 3 5 false true false); MDeleteBias 3].
+
+Example C13_example_user_feature : exists m m',
+  m_run gen_tables 40 exu_ops1 (m_empty 3) = Some m /\ is_enabled (m_objs m) 0 13 = true /\
+  is_dynamic (feat gen_tables (cls_of (m_objs m) 0) 13) = false /\
+  forallb (fun p => negb (mrequests 0 13 p)) exu_ops2 = true /\ m_run gen_tables 40 exu_ops2 m = Some m' /\
+  is_enabled (m_objs m') 0 13 = true /\ is_enabled (m_objs m') 0 7 = false /\
+  (exists m1, m_run gen_tables 40 (firstn 2 exu_ops2) m = Some m1 /\ is_enabled (m_objs m1) 0 7 = true /\ fs_rc (get_fs (m_objs m1) 0 13) = 1%Z).
+Proof.
+  do 2 eexists. split; [vm_compute; reflexivity|]. split; [vm_compute; reflexivity|]. split; [vm_compute; reflexivity|].
+  split; [vm_compute; reflexivity|]. split; [vm_compute; reflexivity|]. split; [vm_compute; reflexivity|]. split; [vm_compute; reflexivity|].
+  eexists. split; [vm_compute; reflexivity|]. split; vm_compute; reflexivity.
 Qed.
